@@ -8,6 +8,7 @@ import (
 	"verifharness/internal/gen"
 	"verifharness/internal/jsonx"
 	"verifharness/internal/run"
+	"verifharness/internal/xrand"
 )
 
 func init() {
@@ -21,6 +22,9 @@ func init() {
 		Assumptions: []string{"'nothing refers to it' is decided on the model: the name occurs nowhere else in the rendered text"},
 		Families: []fw.Family{
 			{Name: "locality", N: constN(900, 30000), Gen: genModelCase, Eval: c20Eval},
+			{Name: "chain", N: func(string) int { return 1 }, Gen: func(r *xrand.Rand, idx int, tier string) *fw.Case {
+				return &fw.Case{Meta: map[string]string{"fixed": "chain"}, Docs: []run.Doc{{}}}
+			}, Eval: c20Eval},
 		},
 		Floors: map[string]int64{"additions_checked": 8000, "deletions_checked": 500},
 	})
@@ -82,8 +86,25 @@ func without(root *jsonx.Node, drop map[string][]string) *jsonx.Node {
 	return out
 }
 
+// c20ChainModel: two heirs of one intermediate type which itself inherits (the deterministic witness of the
+// recorded used-types finding: which heir is processed first decides who lists the transitive base).
+func c20ChainModel() *gen.Model {
+	obj := func(key string, allOf ...string) *gen.SNode {
+		return &gen.SNode{Kind: "object", AllOf: allOf, Props: []*gen.SProp{{Key: key, Node: &gen.SNode{Kind: "int", Val: "1"}}}}
+	}
+	return &gen.Model{Blocks: []*gen.Block{
+		{Kind: "type", Name: "@u1", Notation: "jsight", Schema: obj("k1", "@mid")},
+		{Kind: "type", Name: "@u2", Notation: "jsight", Schema: obj("k2", "@mid")},
+		{Kind: "type", Name: "@mid", Notation: "jsight", Schema: obj("km", "@base")},
+		{Kind: "type", Name: "@base", Notation: "jsight", Schema: obj("kb")},
+	}}
+}
+
 func c20Eval(t *fw.T, c *fw.Case) {
 	m, r := modelOf(c, gen.Options{MaxBlocks: 9, AllowAllOf: true, DeepAllOf: true})
+	if c.Meta["fixed"] == "chain" {
+		m = c20ChainModel()
+	}
 	base := gen.Render(m, nil)
 	db := run.Single([]byte(base.Text))
 	db.FixedSeed = true
@@ -142,7 +163,14 @@ func c20Eval(t *fw.T, c *fw.Case) {
 			}
 			if diff := jsonx.Diff(cb.Root, without(cm.Root, fd.adds), "$"); diff != "" {
 				fail("addition-changes-other-entries:"+fd.kind+":"+diffClass(diff), "adding an independent declaration changes something else: "+diff)
-				break
+				if !strings.Contains(diff, "usedUserTypes") {
+					break
+				}
+				// the used-type lists are a recorded finding (see C10): keep looking at everything else
+				if diff2 := jsonx.Diff(stripKey(cb.Root, "usedUserTypes"), stripKey(without(cm.Root, fd.adds), "usedUserTypes"), "$"); diff2 != "" {
+					fail("addition-changes-other-entries:"+fd.kind+":"+diffClass(diff2), "adding an independent declaration changes something else: "+diff2)
+					break
+				}
 			}
 			rel := "middle"
 			if pos == 0 {
@@ -191,6 +219,12 @@ func c20Eval(t *fw.T, c *fw.Case) {
 		if diff := jsonx.Diff(without(cb.Root, map[string][]string{coll: {b.Name}}), cm.Root, "$"); diff != "" {
 			c.Docs = []run.Doc{db, d}
 			t.Violation("deletion-changes-other-entries:"+b.Kind+":"+diffClass(diff), fmt.Sprintf("deleting the unreferenced %s %s changes something else: %s\n--- before\n%s", b.Kind, b.Name, diff, base.Text))
+			if !strings.Contains(diff, "usedUserTypes") {
+				continue
+			}
+			if diff2 := jsonx.Diff(stripKey(without(cb.Root, map[string][]string{coll: {b.Name}}), "usedUserTypes"), stripKey(cm.Root, "usedUserTypes"), "$"); diff2 != "" {
+				t.Violation("deletion-changes-other-entries:"+b.Kind+":"+diffClass(diff2), fmt.Sprintf("deleting the unreferenced %s %s changes something else: %s\n--- before\n%s", b.Kind, b.Name, diff2, base.Text))
+			}
 			continue
 		}
 		t.Distinct("delete " + b.Kind)
